@@ -18,7 +18,7 @@ ANCHORS = ["npdataclasses.py::NpDataClass._assert_same_lens", "npdataclasses.py:
            "npdataclasses.py::NpDataClass.astype", "npdataclasses.py::VarLenArray.__array_function__", "npdataclasses.py::NpDataClass.__len__"]
 OPS = ["len", "badlen", "idx", "iter", "concat", "eq", "astype", "vla"]
 FLOOR_TAGS = ["op:" + o for o in OPS] + ["idx:int", "idx:slice", "idx:list", "idx:mask", "idx:boollist", "idx:emptylist", "len:0", "fields:1", "fields:4",
-                                         "astype:reordered", "astype:same-order", "eq:same", "eq:cell-differs", "eq:length-differs", "field:2d", "field:float", "badlen:first", "badlen:other"]
+                                         "astype:reordered", "astype:same-order", "eq:same", "eq:cell-differs", "eq:length-differs", "field:2d", "field:float", "badlen:first", "badlen:other", "vla:fortran"]
 FLOOR_MONITORS = ["c18:compare", "c18:aligned"]
 N_RANDOM = {"quick": 32000, "thorough": 200000}
 _CLS = {}
@@ -39,6 +39,8 @@ def field(kind, fidx, L, offset=0):
         return np.arange(L, dtype=np.int64) * 10 + base
     if kind == "2d":
         return (np.arange(L, dtype=np.int64)[:, None] * 10 + np.arange(3)[None, :] + base)
+    if kind == "2dF":
+        return np.asfortranarray(np.arange(L, dtype=np.int64)[:, None] * 10 + np.arange(3)[None, :] + base)
     return (np.arange(L, dtype=np.float64) * 10 + base) / 4.0
 
 
@@ -72,6 +74,12 @@ def run(case):
     if op == "vla":
         VLA = CTX.lib.VarLenArray
         arrs = [np.array(a, dtype=np.int64).reshape(-1, w) for a, w in zip(case["arrays"], case["widths"])]
+        if case.get("order") == "F":
+            arrs = [np.asfortranarray(x) for x in arrs]
+            tags.append("vla:fortran")
+        elif case.get("order") == "T":
+            arrs = [np.ascontiguousarray(x.T).T for x in arrs]
+            tags.append("vla:fortran")
         W = max(case["widths"])
         exp = np.concatenate([np.pad(x, ((0, 0), (W - x.shape[1], 0))) for x in arrs])
         a = attempt(lambda: np.concatenate([VLA(x) for x in arrs]))
@@ -87,7 +95,7 @@ def run(case):
     names = ["f%d" % i for i in range(k)]
     C = get_cls(names)
     fs = [field(kd, i, L) for i, kd in enumerate(kinds)]
-    tags += ["fields:%d" % k] + (["len:0"] if L == 0 else []) + (["field:2d"] if "2d" in kinds else []) + (["field:float"] if "f" in kinds else [])
+    tags += ["fields:%d" % k] + (["len:0"] if L == 0 else []) + (["field:2d"] if ("2d" in kinds or "2dF" in kinds) else []) + (["field:float"] if "f" in kinds else [])
     nontrivial = k >= 2 and L >= 2
     desc0 = "dataclass with fields %s of length %d" % (kinds, L)
     if op == "badlen":
@@ -208,10 +216,10 @@ def gen_case(rng, tier, op=None, k=None, L=None):
         m = rng.randint(1, 4)
         widths = [rng.randint(1, 4) for _ in range(m)]
         arrays = [[[rng.randint(1, 9) for _ in range(w)] for _ in range(rng.randint(0, 3))] for w in widths]
-        return {"op": op, "widths": widths, "arrays": arrays}
+        return {"op": op, "widths": widths, "arrays": arrays, "order": rng.choice(["C", "C", "F", "T"])}
     k = k or rng.randint(1, 4)
     L = rng.randint(0, 7) if L is None else L
-    kinds = [rng.choice(["1d", "2d", "f"]) for _ in range(k)]
+    kinds = [rng.choice(["1d", "2d", "f", "2dF"]) for _ in range(k)]
     c = {"op": op, "kinds": kinds, "L": L}
     if op == "badlen":
         if k < 2:
@@ -265,6 +273,8 @@ def directed():
     yield {"op": "idx", "kinds": ["1d"], "L": 3, "ikind": "mask", "idx": [True, False, True]}
     yield {"op": "vla", "widths": [2, 4, 1], "arrays": [[[1, 2]], [[3, 4, 5, 6], [7, 8, 9, 1]], [[2], [3]]]}
     yield {"op": "vla", "widths": [3, 3], "arrays": [[[1, 2, 3]], [[4, 5, 6]]]}
+    for order in ("F", "T"):
+        yield {"op": "vla", "widths": [2, 4, 3], "arrays": [[[1, 2], [3, 4], [5, 6]], [[3, 4, 5, 6], [7, 8, 9, 1]], [[2, 3, 4], [5, 6, 7]]], "order": order}
 
 
 def random_case(rng, tier):
